@@ -165,6 +165,13 @@ def cases(tier, seed):
     for i in range(nb):
         out.append({"engine": "B", "seed": seed * 7129 + i * 5 + 4, "kind": kinds_b[i % len(kinds_b)],
                     "backend": "proc" if i % 4 else "sim"})
+    # engine B arms: the failures that exceed max_failures arrive in the last iteration of the tuning loop
+    # (_b_final_poll_run): 'exceeding the limit ends the run with an error that names a failed trial'
+    na = 28 if tier == "quick" else 340
+    for j, arm in enumerate(("wait_last", "exhaust_last", "all_in_final_poll")):
+        for i in range(na):
+            out.append({"engine": "B", "arm": arm, "seed": seed * 9341 + (j * na + i) * 11 + 6,
+                        "kind": kinds_b[i % len(kinds_b)], "backend": "sim"})
     return out
 
 
@@ -203,6 +210,13 @@ def floors(tier):
         "B:runs_carried_on_after_failure": 40 * k,
         "B:ended_by_failure_limit": 1 * k,
         "B:runs_with_max_failures_0_and_a_failure": 3 * k,
+        "B:decided:failure_limit:all_failures_in_final_loop_iteration:wait_last": 5 * k,
+        "B:decided:failure_limit:all_failures_in_final_loop_iteration:exhaust_last": 5 * k,
+        "B:decided:failure_limit:all_failures_in_final_loop_iteration:all_in_final_poll": 12 * k,
+        "B:decided:failure_limit:several_failures_in_final_loop_iteration": 6 * k,
+        # restrict_configurations + allow_duplicates: only the exclusion list (= failed configurations) filters
+        "decided:no_resuggest_of_failed:restrict_configurations:allow_duplicates": 1000 * k,
+        "decided:restrict:allow_duplicates:None_after_every_member_failed": 80 * k,
     })
     return f
 
@@ -465,6 +479,30 @@ def _search_options(p):
         so["allow_duplicates"] = True
     if p.get("searcher") in ("bayesopt", "hypertune"):
         so.update(p["gp_options"])
+    if p.get("restrict_n"):
+        # documented option restrict_configurations: the searcher only suggests members of this small set. With
+        # allow_duplicates=True the exclusion list holds exactly the configurations of failed trials, so 'a failed
+        # configuration is never suggested again' (and: None once every member has failed) rests on it alone
+        if "restrict_configurations" not in p:
+            import numpy as np
+
+            space = gen.build_space(p["space"])
+            rs = np.random.RandomState(p["restrict_seed"] % (2**31))
+            cfgs, seen = [], set()
+            for _ in range(200):
+                c = {}
+                for k_, dom in space.items():
+                    if hasattr(dom, "sample"):
+                        v = dom.sample(random_state=rs)
+                        c[k_] = v.item() if hasattr(v, "item") else v
+                key = repr(sorted(c.items()))
+                if key not in seen:
+                    seen.add(key)
+                    cfgs.append(c)
+                if len(cfgs) >= p["restrict_n"]:
+                    break
+            p["restrict_configurations"] = cfgs
+        so["restrict_configurations"] = [dict(c) for c in p["restrict_configurations"]]
     return so
 
 
@@ -490,7 +528,7 @@ class FifoAdapter(Adapter):
             self.sched = FIFOScheduler(space, searcher=srch, metric="loss", mode=p["mode"], random_seed=seed,
                                        search_options=_search_options(p))
         self.searcher = self.sched.searcher
-        self.norepeat = srch in ("random", "bayesopt") or (srch == "grid" and not p.get("allow_duplicates"))
+        self.norepeat = srch in ("random", "bayesopt", "kde") or (srch == "grid" and not p.get("allow_duplicates"))
         self.family = "gp_fifo" if srch == "bayesopt" else None
         self._pop = None
 
@@ -980,6 +1018,12 @@ class Top:
         if sugg is None:
             if ad.finite:
                 o.count("space_exhausted_None")
+                if p.get("restrict_n") and p.get("allow_duplicates"):
+                    members = [self.proj(c) for c in p.get("restrict_configurations", [])]
+                    if members and all(m in self.failed_cfg.values() for m in members):
+                        o.count("decided:restrict:allow_duplicates:None_after_every_member_failed")
+                    else:
+                        o.count("restrict:allow_duplicates:None_although_a_member_has_not_failed")
             elif p["kind"].startswith("dehb") and self.failures:
                 self.viol("later_calls_return", "suggest_fails_after_failed_slot", {"what": "suggest returned None"})
                 vt.stop = True
@@ -1021,6 +1065,13 @@ class Top:
                 o.count("decided:new_config_vs_failed_configs")
                 if p.get("allow_duplicates"):
                     o.count("decided:new_config_vs_failed_configs:allow_duplicates")
+                    if p.get("restrict_n"):
+                        o.count("decided:no_resuggest_of_failed:restrict_configurations:allow_duplicates")
+                        o.count(f"decided:no_resuggest_of_failed:restrict_configurations:allow_duplicates:{p['searcher']}")
+                        members = [self.proj(c) for c in p.get("restrict_configurations", [])]
+                        if members and all(m in self.failed_cfg.values() for m in members):
+                            # every member of the restricted set has failed: the only legal answer is None
+                            o.count("decided:restrict:allow_duplicates:suggestion_after_every_member_failed")
                     if ad.family:
                         cell = "decided:no_resuggest_of_failed:gp:allow_duplicates"
                         o.count(cell)
@@ -1344,6 +1395,20 @@ def expand(spec):
     if p.get("gp_dup"):
         p["max_suggest"] = 2 * p["n_trials"] + 8
         p["max_events"] = 130
+    # ------------------------------------------------------------------ restricted search + allow_duplicates
+    # (own random stream, so that the draws above stay what they were)
+    r2 = random.Random(spec["seed"] * 7 + 3)
+    if p["searcher"] == "random" and (kind in ("fifo_random", "msr") or kind.startswith("hb_")) and r2.random() < 0.3:
+        p["restrict_n"] = r2.choice([2, 2, 3, 3, 4, 6])
+        p["restrict_seed"] = r2.randint(0, 2**30)
+        p["allow_duplicates"] = True
+        p["n_trials"] = max(p["n_trials"], 6)
+        p["max_suggest"] = 3 * p["n_trials"] + 12
+        # (KDE / BORE, the other searchers built on StochasticAndFilterDuplicatesSearcher, cannot be imported here)
+        if p["restrict_n"] <= 3:
+            # small sets: as many failure targets as members, so that 'every member has failed => None' is reached
+            while len(p["targets"]) < p["restrict_n"] + 1:
+                p["targets"].append([r2.choice([BF, BT]) if BT in pts else BF, r2.randint(0, 1)])
     p.update({k: v for k, v in spec.items() if k not in ("seed", "kind", "point", "searcher") and not k.startswith("_")})
     if "kind_exact" in spec:
         p["kind"] = spec["kind_exact"]
@@ -1365,6 +1430,66 @@ def _adapter(o, p, spec):
     return MoashaAdapter(o, p, spec)
 
 
+def _b_final_poll_run(spec, o):
+    """Engine-B arms for 'exceeding the limit ends the run with an error that names a failed trial' when the failures
+    that exceed max_failures are observed in the very last iteration of Tuner.run's loop — the iteration that leaves
+    through `break` because nothing is running any more:
+      wait_last          wait_trial_completion_when_stopping=True, max_num_trials_started reached, the job that ends
+                         last fails (max_failures=0, single failure);
+      exhaust_last       the searcher runs out of configurations (tiny table) while trials are still running, the job
+                         that ends last fails (max_failures=0);
+      all_in_final_poll  as many workers as trials, every trial fails before its first report: all max_failures+1
+                         failures arrive in one poll.
+    For the first two the job that ends last is learnt from a first pass of the same (deterministic) simulated run without
+    failures; it then fails at the very end of its run (all results delivered, status failed), so the time line is the same."""
+    import random as _r
+
+    from stv import simrun
+    from stv.props import c01
+
+    rng = _r.Random(spec["seed"] + 29)
+    arm = spec["arm"]
+    p = c01.expand({"seed": spec["seed"], "kind": spec["kind"], "backend": "sim"})
+    p.pop("fail", None)
+    p["sjwd"], p["async"], p["max_failures"] = True, True, 0
+    if arm == "all_in_final_poll":
+        w = rng.randint(1, 4)
+        p["wait"], p["n_workers"], p["stop"] = True, w, {"max_num_trials_started": w - 1}  # 'more than' w-1 started
+        p["fail"] = {f"{i}:0": 0 for i in range(w)}
+        p["max_failures"] = rng.choice([0, w - 1, w - 1])
+        return simrun.SimRun(p, spec["seed"]).run(), p
+    if arm == "wait_last":
+        p["wait"] = True
+        p["stop"] = {"max_num_trials_started": rng.randint(1, 6)}
+        p["n_workers"] = rng.randint(1, 4)
+    else:
+        p["table"] = {"x0": ["randint", 0, rng.randint(1, 2)], "x1": ["choice", ["v0", "v1", "v2"][: rng.randint(2, 3)]]}
+        p["stop"] = {"max_num_trials_started": 500}
+        p["n_workers"] = rng.randint(2, 4)
+        p["wait"] = rng.random() < 0.5
+    r1 = simrun.SimRun(dict(p), spec["seed"]).run()
+    last = None
+    for e in r1.rec.events:
+        if e[1] == "w.job_end" and e[2].get("status") == "completed":
+            last = (e[2]["trial"], e[2]["run"])
+    if r1.exc is not None or last is None:
+        o.count("B:final_poll_arm:first_pass_unusable")
+        return r1, p
+    keep = 10**6  # all results are delivered, then the job ends with status failed
+    if not spec["kind"].startswith("fifo") or rng.random() < 0.3:
+        # one result less: the last report of a full run is answered STOP by most schedulers, and a decision in the
+        # same poll as the failure is a different situation (two end notifications, C01/C13 known findings)
+        n_run = 0
+        for e in r1.rec.events:
+            if e[1] in ("c.start_trial", "c.resume_trial") and e[2].get("trial_id") == last[0]:
+                n_run = 0
+            elif e[1] == "c.trial_result" and e[2].get("trial_id") == last[0]:
+                n_run += 1
+        keep = max(0, n_run - 1)
+    p["fail"] = {f"{last[0]}:{last[1]}": keep}
+    return simrun.SimRun(p, spec["seed"]).run(), p
+
+
 def run_engine_b(spec):
     """Real Tuner runs with failures / external stops; decided by the C01 trace automaton."""
     import random as _r
@@ -1373,13 +1498,17 @@ def run_engine_b(spec):
     from stv.props import c01
 
     o = Obs()
+    # arms that place the failure(s) which exceed max_failures in the LAST iteration of the tuning loop (see below)
+    arm_run = _b_final_poll_run(spec, o) if spec.get("arm") else None
     sp = {"seed": spec["seed"], "kind": spec["kind"], "backend": spec["backend"]}
     p = c01.expand(sp)
     rng = _r.Random(spec["seed"] + 17)
     p["max_failures"] = rng.choice([0, 1, 3, 100])
     plan = {f"{rng.randint(0, 8)}:{rng.choice([0, 0, 1, 1])}": rng.randint(0, 3) for _ in range(rng.randint(1, 3))}
     p["sjwd"] = True  # start_jobs_without_delay=False is the subject of the open finding C01-K1
-    if spec["backend"] == "proc":
+    if arm_run is not None:
+        r, p = arm_run
+    elif spec["backend"] == "proc":
         p["delete_checkpoints"] = False
         p["plan"].pop("fail", None)
         p["plan"].pop("ext_stop", None)
@@ -1389,10 +1518,13 @@ def run_engine_b(spec):
         p["fail"] = plan
         p["sjwd"] = True
         r = simrun.SimRun(p, spec["seed"])
-    r.run()
+    if arm_run is None:
+        r.run()
     if spec["backend"] == "proc":
         r.cleanup()
     o.count("B:runs")
+    if spec.get("arm"):
+        o.count("B:arm:" + spec["arm"])
     n_fail = sum(1 for e in r.rec.events if e[1] == "s.on_trial_error.call")
     o.count("B:on_trial_error_calls", n_fail)
     if any(e[1] == "w.external_stop" for e in r.rec.events):
@@ -1429,6 +1561,15 @@ def run_engine_b(spec):
         o.count("B:failure_limit_exceeded_decided")
     if p["max_failures"] == 0 and n_failed_status > 0:
         o.count("B:runs_with_max_failures_0_and_a_failure")
+    # was the limit exceeded only by failures seen in the final iteration of the loop, the one that leaves through
+    # `break` (no on_loop_end follows), i.e. with nothing about a failed trial recorded in an earlier iteration?
+    err_idx = [e[0] for e in r.rec.events if e[1] == "s.on_trial_error.call"]
+    end_idx = [e[0] for e in r.rec.events if e[1] == "c.loop_end"]
+    if n_failed_status > p["max_failures"] and err_idx and (not end_idx or min(err_idx) > max(end_idx)) and not sub.violations:
+        o.count("B:decided:failure_limit:all_failures_in_final_loop_iteration")
+        o.count("B:decided:failure_limit:all_failures_in_final_loop_iteration:" + str(spec.get("arm", "default")))
+        if n_failed_status > 1:
+            o.count("B:decided:failure_limit:several_failures_in_final_loop_iteration")
     o.set_sig(("B", spec["kind"], sig), nontrivial=n_fail > 0)
     o.sample = {"engine": "B", "kind": spec["kind"], "backend": spec["backend"], "on_trial_error_calls": n_fail,
                 "trace": ["%s%d" % s_ for s_ in sig[:25]]}
@@ -1450,7 +1591,7 @@ def run_case(spec):
         o.violate("construction", f"{label}:constructor_raised:{type(e).__name__}",
                   {"params": {k: v for k, v in p.items() if k != "space"}, "error": repr(e)[:300]})
         return o.result()
-    ad.finite = gen.space_size(p["space"]) is not None or p["searcher"] == "grid"
+    ad.finite = gen.space_size(p["space"]) is not None or p["searcher"] == "grid" or bool(p.get("restrict_n"))
     top = Top(o, p, ad, label)
     FVTuner = _fvtuner_class()
     vp = {"n_workers": p["n_workers"], "max_t": p["max_t"], "metric": "loss", "resource_attr": "epoch",
